@@ -960,4 +960,47 @@ example : rvSat [0] [1] (preNearRv [1 + eps / 2] [(0 : ℝ)] (1 / 4)) = true :=
     (by simp only [rvSat, Bool.and_true, rvSat1_iff]; constructor <;> linarith [eps_pos])
     (by simp only [rvSat, Bool.and_true, rvSat1_iff]; constructor <;> linarith [eps_pos])).1 _ (by norm_num)
 
+/-! ### samplers of the constrained spaces (wrapped samplers) `[EX]` -/
+
+/-- [EX] ProjectedStateSampler (and AtlasStateSampler, which also ends with `enforceBounds`): as coded — project, THEN
+clamp — the returned state satisfies the bounds of the ambient space (any space with legal bounds) for ANY projection
+function and any ambient sample: nothing is assumed about the constraint, its Newton iteration or whether it converged. -/
+theorem projected_sampler_inbounds (sp : Space ℝ) (h : boundsOk sp) (project : OmplModel.St ℝ → OmplModel.St ℝ)
+    (ambient : OmplModel.St ℝ) : satisfiesBounds sp (projectedSample sp project ambient) = true :=
+  enforce_inbounds sp _ h
+
+/-- [EX] witness for seeded change s6 (clamp first, project last): the line `y = x` in the box `x ∈ [-2,2]`, `y ∈ [-1/2,1/2]`
+(the box cuts the manifold), orthogonal projection, the in-bounds ambient sample `(2, 1/2)`: clamp-first returns
+`(5/4, 5/4)`, out of bounds; the code as it is returns `(5/4, 1/2)`. -/
+noncomputable def lineProj : OmplModel.St ℝ → OmplModel.St ℝ
+  | .rv [a, b] => .rv [(a + b) / 2, (a + b) / 2]
+  | s => s
+
+theorem projected_sampler_clamp_first_fails :
+    rvOk [-2, -(1 / 2)] [2, (1 / 2 : ℝ)] ∧
+    satisfiesBounds (.rv [-2, -(1 / 2)] [2, (1 / 2 : ℝ)]) (.rv [2, 1 / 2]) = true ∧
+    projectedSampleClampFirst (.rv [-2, -(1 / 2)] [2, (1 / 2 : ℝ)]) lineProj (.rv [2, 1 / 2]) = .rv [5 / 4, 5 / 4] ∧
+    satisfiesBounds (.rv [-2, -(1 / 2)] [2, (1 / 2 : ℝ)])
+      (projectedSampleClampFirst (.rv [-2, -(1 / 2)] [2, (1 / 2 : ℝ)]) lineProj (.rv [2, 1 / 2])) = false ∧
+    projectedSample (.rv [-2, -(1 / 2)] [2, (1 / 2 : ℝ)]) lineProj (.rv [2, 1 / 2]) = .rv [5 / 4, 1 / 2] := by
+  have e := eps_val
+  have hc : projectedSampleClampFirst (.rv [-2, -(1 / 2)] [2, (1 / 2 : ℝ)]) lineProj (.rv [2, 1 / 2]) = .rv [5 / 4, 5 / 4] := by
+    simp only [projectedSampleClampFirst, enforceBounds, enfRv, St.vals, rvEnforce, clampHL]
+    norm_num [lineProj]
+  refine ⟨⟨by norm_num, by norm_num, trivial⟩, ?_, hc, ?_, ?_⟩
+  · simp only [satisfiesBounds, St.vals, rvSat, Bool.and_true, Bool.and_eq_true, rvSat1_iff]
+    rw [e]; norm_num
+  · rw [hc]
+    cases hh : satisfiesBounds (.rv [-2, -(1 / 2)] [2, (1 / 2 : ℝ)]) (.rv [5 / 4, 5 / 4])
+    · rfl
+    · simp only [satisfiesBounds, St.vals, rvSat, Bool.and_true, Bool.and_eq_true, rvSat1_iff] at hh
+      rw [e] at hh; norm_num at hh
+  · simp only [projectedSample, lineProj, enforceBounds, enfRv, St.vals, rvEnforce, clampHL]
+    norm_num
+
+-- non-vacuity of `projected_sampler_inbounds`: the same box and projection
+example : satisfiesBounds (.rv [-2, -(1 / 2)] [2, (1 / 2 : ℝ)])
+    (projectedSample (.rv [-2, -(1 / 2)] [2, (1 / 2 : ℝ)]) lineProj (.rv [2, 1 / 2])) = true :=
+  projected_sampler_inbounds (.rv [-2, -(1 / 2)] [2, (1 / 2 : ℝ)]) projected_sampler_clamp_first_fails.1 _ _
+
 end OmplModel.SpaceBounds.C08
